@@ -110,7 +110,7 @@ def run_cell(prop, cell, opts):
                          'info': api._plain(v['info'])})
             if not aborted and len(ctx.violations) == nv and \
                     len(res['witnesses']) < max_w and \
-                    (ctx.paths < 2 or rng.random() < sample_p):
+                    (ctx.paths < 3 or rng.random() < sample_p):
                 try:
                     if ctx._check():
                         m = ctx.solver.model()
@@ -225,7 +225,7 @@ def run_check(prop, tier='quick', seed=0, repo=None, jobs=None, only=None):
     budget = getattr(mod, 'CELL_BUDGET_S', {}).get(tier, 600)
     opts = {'seed': seed, 'repo': repo, 'cell_budget_s': budget,
             'sample_p': getattr(mod, 'SAMPLE_P', 0.02),
-            'max_witnesses': getattr(mod, 'MAX_WITNESSES', 4),
+            'max_witnesses': getattr(mod, 'MAX_WITNESSES', 10),
             'max_decisions': getattr(mod, 'MAX_DECISIONS', 20000)}
     jobs = jobs or int(os.environ.get('VERIF_JOBS', os.cpu_count() or 4))
     os.environ['PYTHONHASHSEED'] = '0'
